@@ -317,7 +317,7 @@ class NSGCoordinator(GameCoordinator):
                 # find the new lowest networks
                 new_base = netaddr.IPNetwork(f"{fake.ipv4_private()}/{private_nets_sorted[0].mask}")
                 # store its new mapping
-                mapping_nets[private_nets[0]] = Network(str(new_base.network), private_nets_sorted[0].mask)
+                mapping_nets[private_nets_sorted[0]] = Network(str(new_base.network), private_nets_sorted[0].mask)
                 base = netaddr.IPNetwork(str(private_nets_sorted[0]))
                 is_private_net_checks = []
                 for i in range(1,len(private_nets_sorted)):
@@ -346,7 +346,8 @@ class NSGCoordinator(GameCoordinator):
             ip_list = list(netaddr.IPNetwork(str(mapping_nets[net])))[1:]
             # remove broadcast and network ip from the list
             random.shuffle(ip_list)
-            for i,ip in enumerate(ips):
+            # iterate in a defined order (after the first re-labelling the addresses are kept in sets)
+            for i,ip in enumerate(sorted(ips)):
                 mapping_ips[ip] = IP(str(ip_list[i]))
             # Always add random, in case random is selected for ips
             mapping_ips['random'] = 'random'
